@@ -27,3 +27,7 @@
 ; sorted ascending (strict: no duplicates)
 (define-fun ssorted ((h (Array Int (Array Int Str))) (s Slice_Str)) Bool
   (forall ((i Int) (j Int)) (=> (and (<= 0 i) (< i j) (< j (len_Slice_Str s))) (str_lt (sget_Slice_Str h s i) (sget_Slice_Str h s j)))))
+; position of a member (any one; unique in duplicate-free sequences)
+(declare-fun sindex ((Array Int (Array Int Str)) Slice_Str Str) Int)
+(assert (forall ((h (Array Int (Array Int Str))) (s Slice_Str) (x Str)) (! (=> (smem h s x)
+   (and (<= 0 (sindex h s x)) (< (sindex h s x) (len_Slice_Str s)) (= (sget_Slice_Str h s (sindex h s x)) x))) :pattern ((sindex h s x)))))
